@@ -57,19 +57,33 @@ func swap_BANG(ctx context.Context, a ...MalType) (MalType, error) {
 		return nil, errors.New("swap! called with non-atom")
 	}
 	atm := a[0].(*Atom)
-	atm.Mutex.Lock()
-	defer atm.Mutex.Unlock()
-	verifhook.Point("swap.read")
-	args := []MalType{atm.Val}
 	f := a[1]
-	args = append(args, a[2:]...)
-	res, e := Apply(ctx, f, args)
-	if e != nil {
-		return nil, e
+	for {
+		// The lock is not held while f runs: f may itself deref or swap atoms
+		// (this one included) and must not be able to block the evaluation forever.
+		// As in Clojure, f is applied again if the atom changed in the meantime.
+		atm.Mutex.RLock()
+		verifhook.Point("swap.read")
+		old, version := atm.Val, atm.version
+		atm.Mutex.RUnlock()
+		args := []MalType{old}
+		args = append(args, a[2:]...)
+		res, e := Apply(ctx, f, args)
+		if e != nil {
+			return nil, e
+		}
+		atm.Mutex.Lock()
+		if atm.version == version {
+			verifhook.Point("swap.write")
+			atm.Set(res)
+			atm.Mutex.Unlock()
+			return res, nil
+		}
+		atm.Mutex.Unlock()
+		if ctx != nil && ctx.Err() != nil {
+			return nil, errors.New("timeout while evaluating expression")
+		}
 	}
-	verifhook.Point("swap.write")
-	atm.Set(res)
-	return res, nil
 }
 
 // Atoms
@@ -78,6 +92,9 @@ type Atom struct {
 	Val    MalType
 	Meta   MalType
 	Cursor *Position
+	// version counts the values installed with Set (guarded by Mutex); swap! uses it
+	// to detect that the atom changed while its update function was running
+	version uint64
 }
 
 func (a *Atom) Type() string {
@@ -86,6 +103,7 @@ func (a *Atom) Type() string {
 
 func (a *Atom) Set(val MalType) MalType {
 	a.Val = val
+	a.version++
 	return a
 }
 
